@@ -169,6 +169,13 @@ def main():
                     check_file(q, inp3)
                     R.case(('crop', idx), sample=inp3)
                     R.count('writer:crop')
+                    # whole-cube crop: same trace count as the source (hits 4n mod 512 = 0 when the source does)
+                    q0 = os.path.join(d, f'n{idx}_crop0.sgz')
+                    with SgzCropper(p) as c:
+                        quiet(c.write_cropped_file_by_indexes, q0, iline_index_range=(0, n_il), xline_index_range=(0, n_xl), zslices_index_range=(0, ns))
+                    check_file(q0, dict(inp3, box='whole cube'), src, (n_il, n_xl, ns), hsrc)
+                    R.case(('crop0', idx))
+                    R.count('writer:crop')
                 except Exception as e:
                     R.notes.append(f'crop composition skipped ({type(e).__name__}: {str(e)[:80]})') if len(R.notes) < 5 else None
         # 2D
